@@ -8,6 +8,7 @@ mod c04;
 mod c05;
 mod c06;
 mod c10;
+mod c11;
 mod c15;
 mod c16;
 mod c17;
@@ -35,6 +36,7 @@ fn main() {
                 "C05" => c05::search(obl),
                 "C06" => c06::search(obl),
                 "C10" => c10::search(obl),
+                "C11" => c11::search(obl),
                 "C15" => c15::search(obl),
                 _ => { eprintln!("no witness search for {prop}"); std::process::exit(2) }
             };
@@ -55,6 +57,7 @@ fn main() {
                 ("C05", Some(i)) => c05::check_one(&i),
                 ("C06", Some(i)) => c06::check_one(&i),
                 ("C10", Some(i)) => c10::check_one(&i),
+                ("C11", Some(i)) => c11::check_one(&i),
                 ("C15", Some(i)) => c15::check_one(&i),
                 _ => { println!("REPLAY: nothing to re-run (no concrete input in file)"); std::process::exit(0) }
             };
